@@ -127,6 +127,17 @@ static size_t firstdiff(const void *a, size_t na, const void *b, size_t nb)
 }
 static size_t firstdiff(const string &a, const string &b) { return firstdiff(a.data(), a.size(), b.data(), b.size()); }
 
+// fill a few KB of the stack below the caller with a pattern, so that an uninitialised local of the next
+// call does not happen to be zero (used by base64_with_dirtied_stack; effective in the unsanitised executable,
+// where locals really live on the stack)
+static bool g_dirty = false;
+static __attribute__((noinline)) void dirty_stack(int pat)
+{
+    volatile unsigned char buf[8192];
+    memset((void *)buf, pat, sizeof buf);
+    __asm__ volatile("" ::"r"(buf) : "memory");
+}
+
 static const char *len_class(size_t n) { return n == 0 ? "empty" : (n % 3 == 0 ? "mod3_0" : (n % 3 == 1 ? "mod3_1" : "mod3_2")); }
 
 // every codec on one byte string
@@ -179,7 +190,11 @@ static void check_string(const uint8_t *x, size_t n)
         const char *nm = url ? "base64url" : "base64";
         string want = ref_b64(x, n, url);
         mc::crash_context("C18.%s_encode.memory", nm);
+        if (g_dirty)
+            dirty_stack(0xFF);
         string e1 = url ? igris::base64url_encode(in.p, n) : igris::base64_encode(in.p, n);
+        if (g_dirty)
+            dirty_stack(0x5A);
         string e2 = url ? igris::base64url_encode(xs) : igris::base64_encode(xs);
         if (e1.size() != 4 * ((n + 2) / 3))
             mc::violation(mc::fmt("C18.%s_encode.length.%s", nm, len_class(n)), "x=%s encoded '%s' has length %zu, want %zu", hx.c_str(),
@@ -205,7 +220,9 @@ static void check_string(const uint8_t *x, size_t n)
 
 // variant build (g++ -O2 -DNDEBUG under ASan; the main build is clang++ -O1 with assertions): same TU, sub-check
 // names get a suffix and the two expensive enumerations are left to the main build
-#ifdef C18_VARIANT
+#if defined(C18_PLAIN)
+#define NAME(x) x "_unsanitised"
+#elif defined(C18_VARIANT)
 #define NAME(x) x "_gcc_O2_ndebug"
 #else
 #define NAME(x) x
@@ -244,6 +261,38 @@ template <class T> static string ref_fixed(T v)
 // A fixed-width decoder reads EXACTLY its 2*sizeof(T) characters: (1) from a field that ends flush against an
 // inaccessible page (non-terminated, one byte of over-read faults), (2) whatever stands directly behind the
 // field in a longer buffer — more hex digits, NUL, separators, arbitrary bytes — must not change the result.
+// the same helpers compiled in translation units that include hexascii.h FIRST, before any system header
+// (c18_first.cpp as C++, c18_first_c.c as C): byte-order and type macros must not depend on what was included before
+extern "C"
+{
+#define FIRST_DECL(P)                                                                                                              \
+    void P##u8_to_hex(char *, uint8_t);                                                                                            \
+    void P##u16_to_hex(char *, uint16_t);                                                                                          \
+    void P##u32_to_hex(char *, uint32_t);                                                                                          \
+    void P##u64_to_hex(char *, uint64_t);                                                                                          \
+    uint8_t P##hex_to_u8(const char *);                                                                                            \
+    uint16_t P##hex_to_u16(const char *);                                                                                          \
+    uint32_t P##hex_to_u32(const char *);                                                                                          \
+    uint64_t P##hex_to_u64(const char *);
+    FIRST_DECL(c18_first_)
+    FIRST_DECL(c18_firstc_)
+}
+template <class T, class E, class D> static void check_first(const char *name, T v, const string &want, E enc, D dec)
+{
+    Exact t(want.size());
+    mc::crash_context("C18.%s.memory.header_included_first", name);
+    enc((char *)t.p, v);
+    string got((char *)t.p, want.size());
+    if (got != want)
+        mc::violation(mc::fmt("C18.%s.value.header_included_first", name), "v=%llx: text %s want %s (helpers from a TU that includes hexascii.h before any system header)",
+                      (unsigned long long)v, got.c_str(), want.c_str());
+    memcpy(t.p, want.data(), want.size());
+    T b = dec((const char *)t.p);
+    if (b != v)
+        mc::violation(mc::fmt("C18.%s.roundtrip.header_included_first", name), "text %s decoded to %llx", want.c_str(), (unsigned long long)b);
+    mc::crash_context("C18.harness");
+}
+
 template <class T, class F> static void check_field(const char *name, const string &text, T v, F decode)
 {
     size_t w = text.size();
@@ -291,6 +340,8 @@ static void check_u8(uint8_t v)
     uint8_t b = hex_to_uint8((const char *)t.p);
     if (b != v)
         mc::violation("C18.hex_to_uint8.roundtrip", "v=%02x text %s back %02x", v, got.c_str(), b);
+    check_first<uint8_t>("uint8", v, ref_fixed<uint8_t>(v), c18_first_u8_to_hex, c18_first_hex_to_u8);
+    check_first<uint8_t>("uint8", v, ref_fixed<uint8_t>(v), c18_firstc_u8_to_hex, c18_firstc_hex_to_u8);
     check_field<uint8_t>("hex_to_uint8", ref_fixed<uint8_t>(v), v, [](const char *h) { return hex_to_uint8(h); });
     // nibble helpers
     if (half2hex(v >> 4) != HEXU[v >> 4] || hex2half(HEXU[v & 15]) != (v & 15) || hex2byte(HEXU[v >> 4], HEXU[v & 15]) != v)
@@ -309,6 +360,8 @@ static void check_u16(uint16_t v)
     uint16_t b = hex_to_uint16((const char *)t.p);
     if (b != v)
         mc::violation("C18.hex_to_uint16.roundtrip", "v=%04x text %s back %04x", v, got.c_str(), b);
+    check_first<uint16_t>("uint16", v, ref_fixed<uint16_t>(v), c18_first_u16_to_hex, c18_first_hex_to_u16);
+    check_first<uint16_t>("uint16", v, ref_fixed<uint16_t>(v), c18_firstc_u16_to_hex, c18_firstc_hex_to_u16);
     check_field<uint16_t>("hex_to_uint16", ref_fixed<uint16_t>(v), v, [](const char *h) { return hex_to_uint16(h); });
 }
 static void check_u32(uint32_t v)
@@ -323,6 +376,8 @@ static void check_u32(uint32_t v)
     uint32_t b = hex_to_uint32((const char *)t.p);
     if (b != v)
         mc::violation("C18.hex_to_uint32.roundtrip", "v=%08x text %s back %08x", v, got.c_str(), b);
+    check_first<uint32_t>("uint32", v, ref_fixed<uint32_t>(v), c18_first_u32_to_hex, c18_first_hex_to_u32);
+    check_first<uint32_t>("uint32", v, ref_fixed<uint32_t>(v), c18_firstc_u32_to_hex, c18_firstc_hex_to_u32);
     check_field<uint32_t>("hex_to_uint32", ref_fixed<uint32_t>(v), v, [](const char *h) { return hex_to_uint32(h); });
 }
 static void check_u64(uint64_t v)
@@ -337,6 +392,8 @@ static void check_u64(uint64_t v)
     uint64_t b = hex_to_uint64((const char *)t.p);
     if (b != v)
         mc::violation("C18.hex_to_uint64.roundtrip", "v=%016llx text %s back %016llx", (unsigned long long)v, got.c_str(), (unsigned long long)b);
+    check_first<uint64_t>("uint64", v, ref_fixed<uint64_t>(v), c18_first_u64_to_hex, c18_first_hex_to_u64);
+    check_first<uint64_t>("uint64", v, ref_fixed<uint64_t>(v), c18_firstc_u64_to_hex, c18_firstc_hex_to_u64);
     check_field<uint64_t>("hex_to_uint64", ref_fixed<uint64_t>(v), v, [](const char *h) { return hex_to_uint64(h); });
 }
 
@@ -591,6 +648,47 @@ MC_INIT
     });
 
 #endif
+    // (k) the encoders right after the stack below them was filled with FF / 5A: a tail group assembled in an
+    // uninitialised local shows its garbage in the symbol that straddles the end of the data
+    mc::add_check(NAME("base64_with_dirtied_stack"), [] {
+        int b0 = mc::choose(256);
+        mc::describe("strings %02x, %02x??, %02x??5Ac3, %02x??5Ac3f0 with the stack dirtied before every encode", b0, b0, b0, b0);
+        g_dirty = true;
+        uint8_t m[5] = {(uint8_t)b0, 0, 0x5A, 0xC3, 0xF0};
+        check_string(m, 1);
+        for (int b1 = 0; b1 < 256; b1++)
+        {
+            m[1] = (uint8_t)b1;
+            check_string(m, 2);
+            uint8_t q[5] = {0x5A, 0xC3, 0xF0, (uint8_t)b0, (uint8_t)b1};
+            check_string(q, 4);
+            check_string(q, 5);
+        }
+        g_dirty = false;
+        mc::outcome(mc::fmt("%d", b0 & 3));
+        mc::more_cases(768, 768);
+        mc::nontrivial();
+    });
+
+    // (j) EVERY length 0..300 (thorough 0..2100) with three byte patterns: capacity/reallocation steps of the
+    // result string, group counts and padding at every size, not only around powers of two
+    mc::add_check(NAME("every_length_0_300"), [] {
+        int maxlen = mc::thorough() ? 2100 : 300;
+        int c = mc::choose(maxlen + 1);
+        mc::describe("length %d, patterns counting / FB FF FE.. / 00", c);
+        std::vector<uint8_t> m((size_t)c);
+        for (int pat = 0; pat < 3; pat++)
+        {
+            for (int i = 0; i < c; i++)
+                m[(size_t)i] = pat == 0 ? (uint8_t)(i * 7 + 1) : pat == 1 ? (uint8_t)(0xFB + (i % 5)) : 0;
+            check_string(m.data(), (size_t)c);
+        }
+        mc::outcome(mc::fmt("%d", c % 3));
+        mc::more_cases(2, 2);
+        if (c > 6)
+            mc::nontrivial();
+    });
+
     // (h) every alignment of input and output for short lengths (0..12 bytes): a routine that handles an
     // unaligned head / aligned middle / tail separately must not touch a byte outside [p, p+n) and [out, out+2n)
     mc::add_check(NAME("alignment_x_short_lengths"), [] {
